@@ -262,6 +262,18 @@ def _rand_msg(rng):
             m.encoding = rng.choice(('utf-8', 'nosuch', 'UCS2', 'octet_unspecified_I'))
         if rng.random() < 0.3:
             m.service_type = rng.choice(STRINGS)[:5]
+        from aiosmpplib.state import OptionalParam
+        if rng.random() < 0.25:
+            # a segment as the library itself holds it: the UDHI flag AND the SAR parameters (a concatenated deliver_sm parsed
+            # from the wire, the submit_sm segments the Sender makes of a long UDHI message - the correlator persists those)
+            m.esm_class = int(m.esm_class) | 0x40
+            m.optional_params = [q for q in (m.optional_params or []) if q.tag not in (0x020C, 0x020E, 0x020F)] + [
+                OptionalParam(0x020C, rng.randrange(65536)), OptionalParam(0x020F, rng.randrange(1, 4)), OptionalParam(0x020E, 3)]
+        if rng.random() < 0.25:
+            # octet-string parameters whose value ends in NUL octets (network_error_code with error 0, its_session_info ...)
+            tag, val = rng.choice(((0x0423, '\x03\x00\x00'), (0x1383, '\x00\x00'), (0x0381, '\x01\x00\x00\x00'),
+                                   (0x0423, '\x03\x00\x05'), (0x1383, '\x07\x00')))
+            m.optional_params = [q for q in (m.optional_params or []) if q.tag != tag] + [OptionalParam(tag, val)]
         return m, 'sm'
     m = L.rand_other(rng)
     if hasattr(m, 'log_id'):
